@@ -5,9 +5,12 @@ EXTENDS DataStore
 AllOps == {"split_obs", "split_channel", "split_time", "split_merge", "subset_obs", "subset_channel",
            "subset_time", "sort_by", "merge", "odd_even", "nested_odd_even", "bin_time",
            "time_as_observations", "time_as_channels", "df", "copy", "saveload", "dict",
-           "average_by", "tensor", "drop"}
+           "average_by", "tensor", "average", "drop"}
 \* C11 does not quantify over save / load (that is C16, which uses AllOps): everything but "saveload"
 C11Ops == AllOps \ {"saveload"}
+\* depth-3 runs: without the operations that leave the heap as it is or merely duplicate an object through
+\* another route (observers and the dict round trip are exercised at depth 2, in simulation and in traces)
+D3Ops == C11Ops \ {"dict", "average", "tensor"}
 \* the >= 17 row configuration for the stability clause: only the row operations
 RowOps == {"sort_by", "split_obs", "split_merge", "subset_obs", "merge", "odd_even", "copy",
            "time_as_observations"}
